@@ -821,6 +821,31 @@ pub fn run_c20(ctx: &Ctx, rep: &mut Report) {
             rep.tally("big_dense_builds");
         }
     }
+    // One collection at the edge of what a DFA can hold: 100 patterns of 84 000
+    // bytes (8.4 million trie states); with byte classes off a DFA would need
+    // 2^31 table entries, more than a state identifier can address. Building
+    // must still succeed for the automatic kind (which is meant to fall back)
+    // and for both NFA kinds. About a second and 400 MB; shard 1 only.
+    if ctx.tier != Tier::Tiny && ctx.shard == 1 {
+        let pats: Vec<Vec<u8>> = (0..100u32)
+            .map(|i| {
+                let mut p = vec![b'a' + (i % 20) as u8, b'a' + (i / 20) as u8];
+                let mut x = i.wrapping_mul(2654435761).wrapping_add(ctx.seed as u32 | 1);
+                while p.len() < 84_000 {
+                    x ^= x << 13;
+                    x ^= x >> 17;
+                    x ^= x << 5;
+                    p.push(b'a' + (x % 4) as u8);
+                }
+                p
+            })
+            .collect();
+        for imp in [Imp::TopAuto, Imp::TopCnfa] {
+            let cfg = Cfg { imp, kind: Kind::LeftmostFirst, sk: SK::Unanchored, ci: false, pre: false, dense_depth: None, byte_classes: false };
+            c20_check_one(rep, &pats, &cfg, "8.4M states, byte classes off");
+            rep.tally("near_dfa_limit_builds");
+        }
+    }
 }
 
 /// Builders are values that may be kept and used again: one configured
